@@ -1,2 +1,160 @@
-(* C05 — property theorems only. *)
-From Dastard Require Import Common.ZX C05.Types C05.Model C05.Spec C05.Proofs.
+(* C05 — property theorems only: each closed by [exact], each followed by Print Assumptions.
+   Encoders (ljh22_record, ljh3_record, off_record, off_header_tail, publish, bstep, brun ...) are the mirror
+   model of the Go code (Model.v); decoders and checkers (parse_*, C05_bench_check, accepted22, off_prefix,
+   sst_before ...) are the independent specification (Spec.v, which does not import Model.v). *)
+From Dastard Require Import Common.ZX C05.Types C05.Model C05.Spec C05.RoundTrip C05.Proofs.
+Open Scope Z_scope.
+
+(* LJH 2.2: for ALL sub-frame parameters, ALL record lengths L >= 0 and ALL lists of WriteRecord argument tuples
+   whose fields fit the layout (sub-frame count frame*divisions+offset and timestamp within int64, L samples of
+   16 bits), the decoder written from doc/LJH.md reads the concatenated records back exactly, nothing left over;
+   in particular the stored counter is frame*divisions + offset (w_expect22). *)
+Theorem ljh22_roundtrip :
+  forall sfdiv sfoff L rs,
+    0 <= L -> Forall (rec22_fits sfdiv sfoff L) rs ->
+    parse_ljh22 L (concat (map (fun r => ljh22_record sfdiv sfoff (r_frame r) (r_ns r) (r_data r)) rs))
+    = POk (map (fun r => mkd22 (r_frame r * sfdiv + sfoff) (r_ns r) (r_data r)) rs).
+Proof. exact ljh22_roundtrip_lemma. Qed.
+Print Assumptions ljh22_roundtrip.
+
+Example ljh22_roundtrip_nonvacuous :
+  Forall (rec22_fits 4 2 3) [mkrec 7 (-5) 1 [0; 65535; 258] 0 0 0 []; mkrec (2 ^ 60) (2 ^ 63 - 1) 1 [1; 2; 3] 0 0 0 []].
+Proof. repeat constructor; cbn; try lia; discriminate. Qed.
+
+(* LJH 3 (self-delimiting, variable length) *)
+Theorem ljh3_roundtrip :
+  forall rs,
+    Forall rec3_fits rs ->
+    parse_ljh3 (concat (map (fun r => ljh3_record (r_pre r) (r_frame r) (r_ns r) (r_data r)) rs))
+    = POk (map (fun r => mkd3 (r_pre r) (r_frame r) (r_ns r) (r_data r)) rs).
+Proof. exact ljh3_roundtrip_lemma. Qed.
+Print Assumptions ljh3_roundtrip.
+
+Example ljh3_roundtrip_nonvacuous :
+  Forall rec3_fits [mkrec (- 2 ^ 63) (2 ^ 63 - 1) (- 2 ^ 31) [] 0 0 0 []; mkrec 5 6 (2 ^ 31 - 1) [65535; 0; 7] 0 0 0 []].
+Proof. repeat constructor; cbn; try lia; discriminate. Qed.
+
+(* OFF: binary tail of the header (projectors then basis, float64 bit patterns) followed by the records *)
+Theorem off_roundtrip :
+  forall nb proj basis rs,
+    0 <= nb -> matrix_wf proj -> matrix_wf basis -> Forall (recoff_fits nb) rs ->
+    parse_off nb (m_rows proj) (m_cols proj) (m_rows basis) (m_cols basis)
+              (off_header_tail proj basis ++
+               concat (map (fun r => off_record (zlen (r_data r)) (r_pre r) (r_frame r) (r_ns r)
+                                                (r_mean r) (r_delta r) (r_resid r) (r_coefs r)) rs))
+    = Some (mkoffbody (m_bits proj) (m_bits basis)
+                      (map (fun r => mkdoff (zlen (r_data r)) (r_pre r) (r_frame r) (r_ns r)
+                                            (r_mean r) (r_delta r) (r_resid r) (r_coefs r)) rs)).
+Proof. exact off_roundtrip_lemma. Qed.
+Print Assumptions off_roundtrip.
+
+Example off_roundtrip_nonvacuous :
+  matrix_wf (mkmat 1 2 [0; 2 ^ 64 - 1]) /\
+  Forall (recoff_fits 2) [mkrec (- 2 ^ 63) (2 ^ 63 - 1) (- 2 ^ 31) [1; 2; 3] (2 ^ 32 - 1) 0 2143289344 [4290772992; 1]].
+Proof. split; [repeat split; cbn; try lia; repeat constructor; cbn; lia | repeat constructor; cbn; try lia; discriminate]. Qed.
+
+(* the three decoders terminate with a verdict on EVERY byte string: the out-of-fuel result is unreachable *)
+Theorem parsers_never_out_of_fuel :
+  (forall L body, parse_ljh22 L body <> PFuel) /\
+  (forall body, parse_ljh3 body <> PFuel) /\
+  (forall nb body, 0 <= nb -> parseoff_fuel (length body) nb body <> PFuel).
+Proof. exact parsers_never_out_of_fuel_lemma. Qed.
+Print Assumptions parsers_never_out_of_fuel.
+
+(* Over ALL header renderers, ALL source/channel parameters, ALL histories of START / publish / flush / PAUSE /
+   UNPAUSE / STOP (any length, any interleaving, refused requests included) and every point k of the history:
+   while a writing cycle is open, each file the model has created holds exactly
+        header ++ [OFF: projectors ++ basis ++] concat (map record (records accepted while active and unpaused))
+   and its length is |header| + the sum of the record sizes; a file that was not created means that nothing was
+   accepted.  [st] is the checker-side state (which records were published while the cycle was open and unpaused,
+   Spec.sstep), [ps] the model's publishers after the first k requests.  LJH 2.2: sub-frame count
+   frame*divisions+offset, microseconds = ns/1000 (Z.quot: toward zero, as Go divides). *)
+Theorem file_is_header_plus_records :
+  forall (render22 : hdr22 -> list Z) (render3 : hdr3 -> list Z) (renderoff : hdroff -> list Z) sp cs ops k,
+    cfg_wf sp cs -> Forall (op_wf sp cs) ops ->
+    let obs := snd (brun render22 render3 renderoff true sp cs (binit cs) ops) in
+    let st := sst_before cs (s_init cs) (combine ops obs) k in
+    let ps := fst (brun render22 render3 renderoff true sp cs (binit cs) (firstn k ops)) in
+    s_active st = true ->
+    all4 (fun c acc accoff p =>
+      (* LJH 2.2 *)
+      (s_t22 st = true -> p22 p <> None) /\
+      (forall h s, p22 p = Some (h, s) ->
+         let A := accepted22 (sp_nsamp sp) acc in
+         (w_created s = false -> A = []) /\
+         (w_created s = true ->
+            w_bytes s = render22 h ++ concat (map (fun r => ljh22_record (sp_sfdiv sp) (cp_sfoff c) (r_frame r)
+                                                                         (Z.quot (r_ns r) 1000) (r_data r)) A)
+            /\ zlen (w_bytes s) = zlen (render22 h) + zlen A * (16 + 2 * sp_nsamp sp))) /\
+      (* LJH 3 *)
+      (s_t3 st = true -> p3 p <> None) /\
+      (forall h s, p3 p = Some (h, s) ->
+         (w_created s = false -> acc = []) /\
+         (w_created s = true ->
+            w_bytes s = render3 h ++ concat (map (fun r => ljh3_record (r_pre r + 1) (r_frame r) (Z.quot (r_ns r) 1000) (r_data r)) acc)
+            /\ zlen (w_bytes s) = zlen (render3 h) + sum_z (map (fun r => 24 + 2 * zlen (r_data r)) acc))) /\
+      (* OFF *)
+      (s_toff st = true -> off_eligible c <> None -> poff p <> None) /\
+      (forall h pj bs s, poff p = Some (h, pj, bs, s) ->
+         (w_created s = false -> accoff = []) /\
+         (w_created s = true ->
+            w_bytes s = renderoff h ++ off_header_tail pj bs ++
+                        concat (map (fun r => off_record (zlen (r_data r)) (r_pre r) (r_frame r) (r_ns r)
+                                                         (r_mean r) (r_delta r) (r_resid r) (r_coefs r)) accoff)
+            /\ zlen (w_bytes s) = zlen (renderoff h) + 8 * zlen (m_bits pj) + 8 * zlen (m_bits bs)
+                                  + zlen accoff * (36 + 4 * m_rows pj))))
+      cs (s_acc st) (s_accoff st) ps.
+Proof. exact file_is_header_plus_records_lemma. Qed.
+Print Assumptions file_is_header_plus_records.
+
+(* ... and STOP reports, per channel, exactly those bytes: header fields, size, header length, the rest *)
+Theorem stop_reports_contents :
+  forall (render22 : hdr22 -> list Z) (render3 : hdr3 -> list Z) (renderoff : hdroff -> list Z) sp cs ps,
+    snd (bstep render22 render3 renderoff true sp cs ps BStop) =
+    BFiles (map (fun p =>
+      mkcf (match p22 p with
+            | Some (h, s) => if w_created s then FFile h (zlen (w_bytes s)) (zlen (render22 h)) (zskipn (zlen (render22 h)) (w_bytes s)) else FAbsent
+            | None => FAbsent end)
+           (match p3 p with
+            | Some (h, s) => if w_created s then FFile h (zlen (w_bytes s)) (zlen (render3 h)) (zskipn (zlen (render3 h)) (w_bytes s)) else FAbsent
+            | None => FAbsent end)
+           (match poff p with
+            | Some (h, _, _, s) => if w_created s then FFile h (zlen (w_bytes s)) (zlen (renderoff h)) (zskipn (zlen (renderoff h)) (w_bytes s)) else FAbsent
+            | None => FAbsent end)) ps).
+Proof. exact stop_reports_contents_lemma. Qed.
+Print Assumptions stop_reports_contents.
+
+(* The headline: for ALL renderers, parameters and histories (requests addressing existing channels, record fields
+   within the layouts' ranges, the two float oracles being what they claim), the observations of the model --
+   every request's outcome and, at every STOP, every channel's files -- pass the independent checker: headers
+   state the channel's true parameters, bodies parse with nothing left over into exactly the records accepted
+   while active and unpaused, sizes add up, no file for a type that was not requested. *)
+Theorem model_passes_checker :
+  forall (render22 : hdr22 -> list Z) (render3 : hdr3 -> list Z) (renderoff : hdroff -> list Z) sp cs ops,
+    cfg_wf sp cs -> Forall (op_wf sp cs) ops ->
+    C05_bench_check sp cs (combine ops (snd (brun render22 render3 renderoff true sp cs (binit cs) ops))) = true.
+Proof. exact model_passes_checker_full. Qed.
+Print Assumptions model_passes_checker.
+
+Example model_passes_checker_nonvacuous :
+  let sp := mksrcp 1 [76] 4 1 4 1 100000 4532020583610935537 1000000 (-5) in
+  let cs := [mkchanp 0 [99] 1 4 2 2 1 2 0 0 [] None] in
+  cfg_wf sp cs /\ Forall (op_wf sp cs) [BStart true true false; BPub 0 [mkrec 7 (-1500) 1 [1; 2; 3; 65535] 0 0 0 []]; BStop].
+Proof.
+  split.
+  - split; [discriminate|]. split; [cbn; lia|]. split; [vm_compute; reflexivity|]. split; [vm_compute; reflexivity|].
+    intros c pj bs desc [<- | []] H. discriminate H.
+  - repeat constructor; cbn; try lia; discriminate.
+Qed.
+
+(* The code before the fix (SetLJH3 alone: no way to pass row and column): a channel at row 2 / column 1 of a
+   4 x 2 array gets an LJH 3 header saying row 0 / column 0, and the checker rejects it. *)
+Theorem model_passes_checker_refuted_pre_fix :
+  let sp := mksrcp 1 [76] 4 1 4 1 100000 4532020583610935537 1000000 (-5) in
+  let cs := [mkchanp 0 [99] 1 4 2 2 1 2 0 0 [] None] in
+  let ops := [BStart false true false; BPub 0 [mkrec 7 1000 1 [1; 2; 3; 4] 0 0 0 []]; BStop] in
+  cfg_wf sp cs /\ Forall (op_wf sp cs) ops /\
+  C05_bench_check sp cs (combine ops (snd (brun (fun _ => []) (fun _ => []) (fun _ => []) false sp cs (binit cs) ops))) = false /\
+  C05_bench_check sp cs (combine ops (snd (brun (fun _ => []) (fun _ => []) (fun _ => []) true sp cs (binit cs) ops))) = true.
+Proof. exact pre_fix_witness. Qed.
+Print Assumptions model_passes_checker_refuted_pre_fix.
